@@ -22,72 +22,6 @@ theorem statusRequestBytes_inj (a a' ts : Nat) (ha : a < 126) (ha' : a' < 126) (
   rw [u8n a (by omega), u8n a' (by omega)] at this
   exact this
 
-/-- The lone transmitter `x` sends at `q`: the explicit listener condition carries over, the new transmission is
-appended to the transmissions not consumed yet. -/
-theorem LLOkX.send {cfg : Cfg} {G aL me x : Nat} {b b' : Bus} {H H' : Int} {j : Nat} {st : NetStation} {r0 : TokenRing}
-    {hd : List Telegram} {dn rs : List Transmission} {l : Int} {coll : Nat}
-    (h : LLOkX cfg G aL b H j st r0 hd none dn rs l coll) (hlog : LoneLog cfg aL me x b) (hr : 0 < cfg.rate) (haL : aL < 126)
-    (q : Int) (bytes : Bytes) (hbl : 0 < bytes.length) (hq2 : q ≤ H) (hsj : b.seen.getD j 0 ≤ q)
-    (hP : q ≤ b.seen.getD j 0 + (cfg.P : Nat)) (hP100 : cfg.P ≤ 100000)
-    (htx' : b'.txs = (b.txs ++ [({ start := q, sender := x, bytes := bytes, dropped := false } : Transmission)]).filter
-      fun t => decide (b.txEnd t + 100000 > q))
-    (hseen : b'.seen = b.seen) :
-    LLOkX cfg G aL b' H' j st r0 hd none (dn.filter (fun t => decide (b.txEnd t + 100000 > q)))
-      (rs ++ [{ start := q, sender := x, bytes := bytes, dropped := false }]) l coll := by
-  obtain ⟨hon, hal, hinv, hson, hne, htto, hring, h1, h2, h4, h5, h6, h7, h8, hst, h10⟩ := h
-  have hc := hlog.chained
-  rw [h1] at hc
-  have hcrs : CChained cfg rs := (List.pairwise_append.1 hc).2.1
-  have hposrs : ∀ t ∈ rs, 0 < t.bytes.length := fun t ht =>
-    (hlog.wire haL t (by rw [h1]; exact List.mem_append_right _ ht)).2.2.1
-  have hafter := rs_end_after cfg rs _ hcrs hposrs h6
-  have hc0 := cfg.ce_pos hr 0
-  have htxe : ∀ t, b.txEnd t = cEnd cfg t := by
-    intro t; unfold Bus.txEnd cEnd; rw [byteEnd_cfg b cfg hlog.rate]
-  have hkeep : rs.filter (fun t => decide (b.txEnd t + 100000 > q)) = rs := by
-    rw [List.filter_eq_self]
-    intro t ht
-    have := hafter t ht
-    rw [htxe]
-    simp only [decide_eq_true_eq]
-    omega
-  have hkeep' : decide (b.txEnd ({ start := q, sender := x, bytes := bytes, dropped := false } : Transmission) + 100000 > q) = true := by
-    rw [htxe]
-    unfold cEnd
-    simp only [decide_eq_true_eq]
-    omega
-  have hv0 : cvis cfg ({ start := q, sender := x, bytes := bytes, dropped := false } : Transmission) (b.seen.getD j 0) = 0 := by
-    apply cvis_zero
-    simp only
-    omega
-  refine ⟨hon, hal, hinv, hson, hne, htto, hring, ?_, ?_⟩
-  · rw [htx', h1, List.filter_append, List.filter_append, hkeep]
-    simp only [List.filter_cons, hkeep', if_true, List.filter_nil, List.append_assoc]
-  rw [hseen]
-  have harr : arrived cfg (rs ++ [({ start := q, sender := x, bytes := bytes, dropped := false } : Transmission)]) (b.seen.getD j 0) =
-      arrived cfg rs (b.seen.getD j 0) := by
-    rw [arrived_append]
-    unfold arrived
-    simp only [List.map_cons, List.map_nil, List.flatten_cons, List.flatten_nil, hv0, List.take_zero, List.append_nil]
-  refine ⟨fun o ho => h2 o (List.mem_filter.1 ho).1, by rw [harr]; exact h4, by rw [harr]; exact h5, ?_, h7, h8, hst, ?_⟩
-  · intro t rest hrs
-    cases rs with
-    | nil =>
-      simp only [List.nil_append, List.cons.injEq] at hrs
-      obtain ⟨rfl, -⟩ := hrs
-      rw [hv0]; exact hbl
-    | cons t0 r0' =>
-      simp only [List.cons_append, List.cons.injEq] at hrs
-      obtain ⟨rfl, -⟩ := hrs
-      exact h6 _ _ rfl
-  · have hn : nextArr cfg H' (rs ++ [({ start := q, sender := x, bytes := bytes, dropped := false } : Transmission)]) (b.seen.getD j 0) ≤
-        nextArr cfg H rs (b.seen.getD j 0) := by
-      unfold nextArr
-      cases rs with
-      | nil => simp only [List.nil_append, hv0]; omega
-      | cons t r => exact Int.le_refl _
-    omega
-
 /-- **The claimant polls the listener's address**: the poll of `duo_claimant` in which the claimant sends the GAP
 request to the listener's address establishes the start condition `HQ0` of the reply handshake (`hpy`: the listener
 runs at the configured rate; `hpb`: the claimant has no stale pending-byte count — neither is tracked by `Duo`). -/
